@@ -55,6 +55,8 @@ def s_int(rng, v):
 def s_op(rng, op, kind=None):
     if 'i' in op:
         return s_int(rng, op['i'])
+    if 'x' in op:
+        return op['x'][0]
     if 'r' in op:
         return s_reg(rng, op['r'])
     if 'pos' in op:
@@ -187,6 +189,18 @@ def run_case(asm, acc, case):
         if not a.ok:
             acc['ctr']['canonical_refused'] += 1
             acc['n'] += 1
+            # the documented freedoms work both ways: if the canonical spelling is refused, no rewrite of it may assemble
+            for k in range(min(3, case['rewrites'])):
+                r2 = random.Random('c13-rw-%d-%d-%d' % (case['seed'], case['idx'], k))
+                lines = respell(r2, items)
+                b = monitors.observe(asm, '\n'.join(lines) + '\n', compress, tap=False)
+                acc['n'] += 1
+                if b.ok:
+                    n = a.exc.get('number')
+                    core.add_viol(acc, 'canonical spelling is refused (%s: %s at %r) but a rewrite under the documented freedoms assembles (compress=%s)' % (
+                        a.exc['type'], a.exc['msg'], canon[n - 1] if n and n <= len(canon) else None, compress), dict(case, compress=compress, rewrite=k),
+                        {'canonical': canon[:80], 'rewrite': lines[:80]})
+                    break
             continue
         acc['ctr']['canonical_accepted'] += 1
         for k in range(case['rewrites']):
